@@ -10,6 +10,7 @@ import (
 	"os"
 	"sort"
 	"strings"
+	"sync"
 
 	"golang.org/x/tools/go/ssa"
 )
@@ -123,6 +124,10 @@ type Exec struct {
 	lockOrder  []string
 	lockEvents []LockEvent
 	initAllowed *ssa.Package
+	inInit, inLenient bool
+	feasAlways bool
+	feasTag string
+	initSkipped []string
 }
 
 func NewExec(prog *ssa.Program) *Exec {
@@ -199,7 +204,15 @@ func (ex *Exec) ctxTail(n int) []string {
 	return out
 }
 
+var feasCount = map[string]int{}
+var feasMu sync.Mutex
+
 func (ex *Exec) feasible(st *State, c *Term) bool {
+	if os.Getenv("VS_SLOW") != "" {
+		feasMu.Lock()
+		feasCount[strings.Join(ex.ctxTail(1), "")+" "+ex.feasTag]++
+		feasMu.Unlock()
+	}
 	f := And(st.pc, c)
 	if f.IsFalse() {
 		return false
@@ -440,6 +453,7 @@ func (ex *Exec) forkN(st *State, fr *Frame, guards []*Term, body func(i int, st 
 	if len(idx) > 1 {
 		var keep []int
 		for _, i := range idx {
+			ex.feasTag = "forkN"
 			if ex.feasible(st, guards[i]) {
 				keep = append(keep, i)
 			}
@@ -483,6 +497,32 @@ func (ex *Exec) callFunction(st *State, fn *ssa.Function, args []Value, site ssa
 	}
 	if fn.Name() == "init" && fn.Synthetic != "" && fn.Pkg != ex.initAllowed {
 		return nil // dependency package initialisers are not run (listed per harness unit instead)
+	}
+	if ex.inInit && depth > 0 && !ex.inLenient {
+		// lenient package initialisation: an initialiser expression the engine cannot execute leaves its
+		// variable at the zero value (recorded); the harness fails visibly if it depends on such a variable
+		ex.inLenient = true
+		nctx := len(ex.ctx)
+		pc0 := st.pc
+		var res Value
+		func() {
+			defer func() {
+				if e := recover(); e != nil {
+					ex.ctx = ex.ctx[:nctx]
+					ex.initSkipped = append(ex.initSkipped, fmt.Sprintf("%s: %v", name, e))
+					st.pc = pc0
+					res = zeroResult(fn)
+				}
+			}()
+			res = ex.callFunction(st, fn, args, site, depth)
+		}()
+		if st.dead() && !pc0.IsFalse() {
+			ex.initSkipped = append(ex.initSkipped, name+": panics during initialisation (skipped)")
+			st.pc = pc0
+			res = zeroResult(fn)
+		}
+		ex.inLenient = false
+		return res
 	}
 	if fn.Blocks == nil {
 		if fn.Synthetic != "" || fn.Pkg != nil {
@@ -637,8 +677,12 @@ func (ex *Exec) run(st *State, fr *Frame, b *ssa.BasicBlock, stop *ssa.BasicBloc
 				} else if c.IsFalse() {
 					next = b.Succs[1]
 				} else {
-					t1 := ex.feasible(st, c)
-					t2 := ex.feasible(st, Not(c))
+					t1, t2 := true, true
+					if n := fr.nest[b]; (n >= 2 && n&(n-1) == 0) || ex.feasAlways { // sparse pruning checks at nesting 2,4,8,...
+						ex.feasTag = "if@" + ex.pos(in)
+						t1 = ex.feasible(st, c)
+						t2 = ex.feasible(st, Not(c))
+					}
 					switch {
 					case !t1 && !t2:
 						st.pc = False
@@ -705,4 +749,15 @@ func (ex *Exec) run(st *State, fr *Frame, b *ssa.BasicBlock, stop *ssa.BasicBloc
 func (ex *Exec) fatal(format string, args ...interface{}) {
 	fmt.Fprintf(os.Stderr, format+"\n", args...)
 	os.Exit(2)
+}
+
+func zeroResult(fn *ssa.Function) Value {
+	res := fn.Signature.Results()
+	switch res.Len() {
+	case 0:
+		return nil
+	case 1:
+		return zeroValue(res.At(0).Type())
+	}
+	return zeroValue(res)
 }
